@@ -30,6 +30,7 @@ structure GoodTo (sel : Kind → Action) : Prop where
   str : sel .str = .self
   list : sel .list = .mapRec
   serObj : sel .serObj = .method
+  serRegObj : sel .serRegObj = .method
   regObj : sel .regObj = .registry
 
 structure GoodFrom (sel : Kind → Action) : Prop where
@@ -45,10 +46,10 @@ theorem goodTo_iff (sel : Kind → Action) : goodTo sel = true ↔ GoodTo sel :=
   constructor
   · intro h
     simp only [goodTo, Bool.and_eq_true, beq_iff_eq] at h
-    obtain ⟨⟨⟨⟨⟨⟨⟨h1, h2⟩, h3⟩, h4⟩, h5⟩, h6⟩, h7⟩, h8⟩ := h
-    exact ⟨h1, h2, h3, h4, h5, h6, h7, h8⟩
+    obtain ⟨⟨⟨⟨⟨⟨⟨⟨h1, h2⟩, h3⟩, h4⟩, h5⟩, h6⟩, h7⟩, h8⟩, h9⟩ := h
+    exact ⟨h1, h2, h3, h4, h5, h6, h7, h8, h9⟩
   · intro h
-    simp [goodTo, h.none, h.bool, h.int, h.float, h.str, h.list, h.serObj, h.regObj]
+    simp [goodTo, h.none, h.bool, h.int, h.float, h.str, h.list, h.serObj, h.serRegObj, h.regObj]
 
 theorem goodFrom_iff (sel : Kind → Action) : goodFrom sel = true ↔ GoodFrom sel := by
   constructor
@@ -147,7 +148,7 @@ theorem toWith_val_wf : ∀ v : PyVal, wf env v = true → toJsonWith sel stdTag
     simp [toJsonWith, toJson, hs.list, toWith_list_wf xs hl]
   | .obj c fs, h => by
     have h' : resolvable env c true = true ∧ wfFields env fs = true := by simpa [wf] using h
-    simp [toJsonWith, toJson, hs.serObj, composeTag_std, toWith_fields_wf fs h'.2]
+    cases hr : regExact env c <;> simp [toJsonWith, toJson, hr, hs.serObj, hs.serRegObj, composeTag_std, toWith_fields_wf fs h'.2]
 theorem toWith_list_wf :
     ∀ xs : List PyVal, wfList env xs = true → toJsonListWith sel stdTag true env xs = .ok (toJsonList env xs)
   | [], _ => rfl
@@ -185,7 +186,9 @@ theorem toWith_val : ∀ v : PyVal, toJsonWith sel stdTag true env v = toSpec en
     by_cases h : serializableList env xs = true <;> simp [h]
   | .obj c fs => by
     have ih := toWith_fields fs
-    simp only [toJsonWith, hs.serObj, composeTag_std, ih, toSpec, serializable, toJson]
+    cases hr : regExact env c <;>
+    simp only [toJsonWith, hr, if_true, Bool.false_eq_true, if_false, hs.serObj, hs.serRegObj, composeTag_std, ih, toSpec,
+      serializable, toJson] <;>
     by_cases h : serializableFields env fs = true <;> simp [h]
 theorem toWith_list : ∀ xs : List PyVal, toJsonListWith sel stdTag true env xs =
     (if serializableList env xs then .ok (toJsonList env xs) else .error .notSerializable)
@@ -230,7 +233,7 @@ theorem C18_fromJson_eq_interp (env : Env) (j : Json) :
 theorem sel_eq_of_map_eq (f g : Kind → Action) (h : Kind.all.map f = Kind.all.map g) : f = g := by
   funext k
   simp only [Kind.all, List.map_cons, List.map_nil, List.cons.injEq, and_true] at h
-  obtain ⟨h1, h2, h3, h4, h5, h6, h7, h8, h9, h10, h11, h12, h13, h14, h15⟩ := h
+  obtain ⟨h1, h2, h3, h4, h5, h6, h7, h8, h9, h10, h11, h12, h13, h14, h15, h16⟩ := h
   cases k <;> assumption
 
 /-- **C18_interp_of_dispatch_eq.** Two tables with the same dispatch (same action for every kind, same tag parts, same
@@ -332,9 +335,12 @@ example : RoundTrips { tables with tag := [.name] } = false := by decide
 example : RoundTrips { tables with tag := [.module, .lit ".", .qualname] } = false := by decide
 -- registry lookup by isinstance in registration order
 example : RoundTrips { tables with serLookup := .isinstanceOrder } = false := by decide
--- serializer instances looked up in the registry before `obj.to_json()`
+-- no `obj.to_json()` branch
 example : RoundTrips { tables with toRules := [⟨.isinstance leafTypes, .self⟩, ⟨.isinstance listLike, .mapRec⟩,
     ⟨.registered, .registry⟩, ⟨.always, .raiseNotSerializable⟩] } = false := by decide
+-- the registry consulted before `obj.to_json()`: a serializer class that is also registered goes through the registry
+example : RoundTrips { tables with toRules := [⟨.isinstance leafTypes, .self⟩, ⟨.isinstance listLike, .mapRec⟩,
+    ⟨.registered, .registry⟩, ⟨.isinstance [.serializer], .method⟩, ⟨.always, .raiseNotSerializable⟩] } = false := by decide
 -- from_json: strings are not leaves
 example : RoundTrips { tables with fromRules := ⟨.isinstance [.str], .resolve⟩ :: tables.fromRules } = false := by decide
 -- the shipped UUID pair writes and reads different keys
